@@ -539,6 +539,80 @@ pub fn gen_store(rng: &mut Rng, thorough: bool, out: &mut Vec<String>) {
         out.push("st.active".into());
         out.push("st.dbdump".into());
     }
+    gen_store_txn(rng, thorough, out);
+}
+
+/// dense part of `l1.store` (C15): committed states, then a transaction in which EVERY write (single, batched,
+/// tombstone) is followed by the full battery of reads — every user x every retrieval flag, all states, bulk
+/// versions, every key — each judged against the same read after committing the pending records
+fn gen_store_txn(rng: &mut Rng, thorough: bool, out: &mut Vec<String>) {
+    let ncases = if thorough { 150 } else { 16 };
+    let users = 3u64;
+    let probe = |out: &mut Vec<String>| {
+        let mut flags: Vec<String> = vec!["max".into(), "min".into()];
+        flags.extend((0..=6).map(|e| format!("leq:{e}")));
+        flags.extend((1..=4).map(|v| format!("ver:{v}")));
+        flags.extend((1..=6).map(|e| format!("ep:{e}")));
+        for u in 0..=users {
+            for f in &flags {
+                out.push(format!("st.userstate {u} {f} 0"));
+            }
+            out.push(format!("st.userdata {u} 0"));
+        }
+        for f in ["max", "min", "leq:2", "leq:4", "ver:2", "ep:3"] {
+            out.push(format!("st.userversions {f} 0 0 1 2 3"));
+        }
+        for u in 0..users {
+            let ks: Vec<String> = (1..=6).map(|e| format!("vs:{u}:{e}")).collect();
+            out.push(format!("st.batchget 0 {}", ks.join(" ")));
+        }
+        out.push("st.get azks 0".into());
+    };
+    for case in 0..ncases {
+        let mode = match case % 3 { 0 => "nocache", 1 => "cache", _ => "tiny" };
+        out.push(format!("st.reset {mode}"));
+        let mut plan: Vec<Vec<u64>> = vec![];
+        for _ in 0..users {
+            let mut eps: Vec<u64> = (1..=6).filter(|_| rng.chance(3, 5)).collect();
+            if eps.is_empty() {
+                eps.push(rng.range(1, 6));
+            }
+            plan.push(eps);
+        }
+        let vs_rec = |rng: &mut Rng, plan: &Vec<Vec<u64>>| -> String {
+            let u = rng.below(users) as usize;
+            let i = rng.below(plan[u].len() as u64) as usize;
+            let pay = if rng.chance(1, 8) { 0 } else { rng.range(1, 9) };
+            format!("vs:{}:{}:{}:{}", u, plan[u][i], i + 1, pay)
+        };
+        // committed part
+        for _ in 0..rng.range(2, 9) {
+            out.push(format!("st.set {} 0", vs_rec(rng, &plan)));
+        }
+        if rng.chance(1, 3) {
+            out.push(format!("st.tombstone {} {} 0", rng.below(users), rng.range(0, 6)));
+        }
+        out.push("st.begin".into());
+        for _ in 0..rng.range(1, 4) {
+            match rng.below(6) {
+                0 | 1 | 2 => out.push(format!("st.set {} 0", vs_rec(rng, &plan))),
+                3 | 4 => {
+                    let rs: Vec<String> = (0..rng.range(1, 3)).map(|_| vs_rec(rng, &plan)).collect();
+                    out.push(format!("st.batchset 0 {}", rs.join(" ")));
+                }
+                _ => out.push(format!("st.tombstone {} {} 0", rng.below(users), rng.range(0, 6))),
+            }
+            probe(out);
+        }
+        out.push("st.begin".into());
+        if rng.chance(1, 2) {
+            out.push(format!("st.set azks:{}:{} 0", rng.range(1, 5), rng.range(1, 7)));
+        }
+        out.push("st.commit 0".into());
+        probe(out);
+        out.push("st.active".into());
+        out.push("st.dbdump".into());
+    }
 }
 
 
